@@ -1,4 +1,7 @@
 //! Property registry
+pub mod c03;
+pub mod c05;
+pub mod c16;
 pub mod golden;
 pub mod poswalk;
 
@@ -10,6 +13,9 @@ pub fn all() -> Vec<Box<dyn DynProp>> {
         Box::new(poswalk::PosWalk::new(poswalk::Which::C02)),
         Box::new(poswalk::PosWalk::new(poswalk::Which::C04)),
         Box::new(poswalk::PosWalk::new(poswalk::Which::C11)),
+        Box::new(c03::C03),
+        Box::new(c05::C05::new()),
+        Box::new(c16::C16),
     ]
 }
 
